@@ -227,7 +227,9 @@ def o_geodetic(inp):
         return {'tag': f'{entry}/shape-or-nonfinite-{reg}', 'observed': g, 'expected': [lat, lon, h]}
     if abs(g[0] - lat) > TOL_LAT:
         return {'tag': f'{entry}/latitude-{reg}', 'observed': g, 'expected': [lat, lon, h]}
-    if _circ(g[1], lon) > TOL_LON:
+    # the original longitude itself (not merely modulo 360), except that -180 and +180 name the same meridian
+    lon_err = _circ(g[1], lon) if abs(lon) >= 180 - 1e-9 else abs(g[1] - lon)
+    if lon_err > TOL_LON or abs(g[1]) > 180:
         return {'tag': f'{entry}/longitude-{reg}-{lreg}', 'observed': g, 'expected': [lat, lon, h]}
     if abs(g[2] - h) > TOL_H:
         return {'tag': f'{entry}/height-{reg}', 'observed': g, 'expected': [lat, lon, h]}
@@ -455,6 +457,17 @@ ANG_EDGE = [0.0, 90.0, -90.0, 180.0, -180.0, 270.0, 360.0, 450.0, -725.0, 45.0, 
 
 # ---------------------------------------------------------------- correspondence of the regenerated float definitions
 def correspondence(ctx):
+    """never lets an exception of the implementation abort the run: the search oracle must still get its turn"""
+    import traceback
+    try:
+        _correspondence(ctx)
+    except Exception as e:      # noqa
+        ctx.broken.append({'kind': 'correspondence', 'target': 'C17', 'error': f'{type(e).__name__}: {e}',
+                           'detail': traceback.format_exc()[-2000:]})
+        ctx.say('[corr] aborted by an exception of the implementation:\n' + traceback.format_exc()[-800:])
+
+
+def _correspondence(ctx):
     F = _F()
     a, b = _wgs()
     rng = ctx.rng
@@ -467,7 +480,12 @@ def correspondence(ctx):
     ells = [e for e in ELLIPSOIDS if e] + [(a, b)]
     ctx.correspond('C17_geodetic2ecef_ab', [{**G(p), 'a': ells[i % len(ells)][0], 'b': ells[i % len(ells)][1]} for i, p in enumerate(pts + bad)],
                    lambda c: F.geodetic2ecef(c['lat'], c['lon'], c['h'], c['a'], c['b']))
-    X = lambda p, e=None: dict(zip('xyz', [float(v) for v in (F.geodetic2ecef(*p, *e) if e else F.geodetic2ecef(*p))]))
+    def X(p, e=None):
+        # ECEF position through the implementation; on an exception (a defect the search oracle will report with a
+        # concrete input) fall back to the reference formula so that the run reaches the search
+        r = _call(F.geodetic2ecef, *p, *(e or ()))
+        v = r[1] if r[0] == 'val' else ref_geodetic2ecef(*p, *(e or (a, b)))
+        return dict(zip('xyz', [float(t) for t in np.asarray(v, float).reshape(-1)[:3]]))
     # tolerance: identical binary64 operations on both sides; 64 ulp-units of 7e6 is 1e-7 in every component
     ctx.correspond('C17_ecef2geodetic_u', [X(p) for p in pts], lambda c: F.ecef2geodetic(c['x'], c['y'], c['z']))
     ctx.correspond('C17_ecef2lla_u', [X(p) for p in pts[::3]], lambda c: F.ecef2lla(c['x'], c['y'], c['z']))
